@@ -1,4 +1,5 @@
 import Bp7.Props.C19
+import Bp7.Props.C19More
 #print axioms Bp7.C19.accepted
 #print axioms Bp7.C19.reject_trailing_bytes
 #print axioms Bp7.C19.reject_missing_break
@@ -12,3 +13,9 @@ import Bp7.Props.C19
 #print axioms Bp7.C19.reject_bad_btsd
 #print axioms Bp7.C19.reject_of_visit_err
 #print axioms Bp7.C19.reject_of_canon_err
+#print axioms Bp7.C19.reject_primary_missing_item
+#print axioms Bp7.C19.reject_primary_dst_uint
+#print axioms Bp7.C19.reject_primary_crc_uint
+#print axioms Bp7.C19.reject_canon_missing_item
+#print axioms Bp7.C19.reject_canon_crc_uint
+#print axioms Bp7.C19.readEid_uint
